@@ -621,6 +621,19 @@ fn evaluate(kind: &str, tape: &[u16]) -> Report {
             "solve" => eval_solve(tape),
             "cpp" => eval_cpp_containers(tape),
             "rust" => rustcont::eval_rust_containers(tape),
+            "c18" | "c19" => {
+                // the Pool / Mapping histories of C18 / C19, evaluated inside this
+                // AddressSanitizer-instrumented process
+                let id = if kind == "c18" { "C18" } else { "C19" };
+                let stage = vcore::props::registry::stages(id).into_iter().next().expect("stage");
+                let rep = stage.prop.eval(tape);
+                Report {
+                    labels: rep.labels.iter().map(|s| s.to_string()).collect(),
+                    nontrivial: rep.nontrivial,
+                    failure: rep.failure.map(|f| (f.signature, f.detail)),
+                    describe: String::new(),
+                }
+            }
             other => Report {
                 failure: Some(("HARNESS:unknown-kind".into(), other.to_string())),
                 ..Default::default()
